@@ -18,7 +18,7 @@ func init() {
 			"(b) nothing is registered after teardown: every insert of a live stream into the table and every send on the accept queue happens in a table-lock section in which the closed flag was re-read as false, and the queue is closed only there, so send-on-closed-channel cannot panic; " +
 			"(c) the active-stream counter is incremented exactly where a live stream is inserted and decremented only after winning the CAS on that stream's closed flag; " +
 			"(d) the inactivity timer closes only when the count is zero and the session is open, a singleplex session closes with its stream; (e) the multiplex lock-order graph is acyclic; (f) both pipes wake their readers on every predicate change.",
-		NotDecided: "that blocked socket writers are really released by conn.Close (net semantics); timer timing; 'prefix' as a value; liveness beyond these safety-shaped preconditions.",
+		NotDecided:  "that blocked socket writers are really released by conn.Close (net semantics); timer timing; 'prefix' as a value; liveness beyond these safety-shaped preconditions.",
 		Assumptions: []string{"atomic.CompareAndSwap semantics", "closing a net.Conn unblocks its pending I/O"},
 	})
 }
@@ -41,20 +41,20 @@ func runC12(c *Ctx) {
 
 type c12Anchors struct {
 	streams, streamsM, acceptCh, sClosed, stClosed, recvBuf, activeCount *types.Var
-	closeSession, isClosed, closeAll, passiveClose                      *ssa.Function
+	closeSession, isClosed, closeAll, passiveClose                       *ssa.Function
 }
 
 func getC12(c *Ctx, rule string) *c12Anchors {
 	p := c.P
 	const rel = "internal/multiplex"
 	a := &c12Anchors{
-		streams:     p.Field(rel, "Session", "streams"),
-		streamsM:    p.Field(rel, "Session", "streamsM", "sync.Mutex"),
-		acceptCh:    p.Field(rel, "Session", "acceptCh"),
-		sClosed:     p.Field(rel, "Session", "closed"),
-		stClosed:    p.Field(rel, "Stream", "closed"),
-		recvBuf:     p.Field(rel, "Stream", "recvBuf"),
-		activeCount: p.Field(rel, "Session", "activeStreamCount"),
+		streams:      p.Field(rel, "Session", "streams"),
+		streamsM:     p.Field(rel, "Session", "streamsM", "sync.Mutex"),
+		acceptCh:     p.Field(rel, "Session", "acceptCh"),
+		sClosed:      p.Field(rel, "Session", "closed"),
+		stClosed:     p.Field(rel, "Stream", "closed"),
+		recvBuf:      p.Field(rel, "Stream", "recvBuf"),
+		activeCount:  p.Field(rel, "Session", "activeStreamCount"),
 		closeSession: p.Func(rel, "Session.closeSession"), isClosed: p.Func(rel, "Session.IsClosed"),
 		closeAll: p.Func(rel, "switchboard.closeAll"), passiveClose: p.Func(rel, "Session.passiveClose"),
 	}
